@@ -77,16 +77,19 @@ const BYTE_ATOMS_NO_NL: &[&str] = &["(?-u:\\xFF)", "(?-u:[\\x80-\\xFF])", "(?-u:
 const LOOK_ATOMS: &[&str] = &["^", "$", "\\b", "\\B", "\\b{start}", "\\b{end}", "\\b{start-half}", "\\b{end-half}", "(?-u:\\b)", "(?-u:\\B)"];
 const NL_LITERALS: &[&str] = &["\\n", "\\x0A", "\\u{A}", "[\\n]", "[\\n-\\r]"];
 const CR_NUL_ATOMS: &[&str] = &["\\r", "\\x00", "[\\r]", "[\\x00a]", "\\r?"];
-const REPS: &[&str] = &["*", "+", "?", "{2}", "{1,2}", "{0,3}", "{2,}", "*?", "+?", "??", "{1,3}?"];
+// The counts 10/11/12 sit at the inner-literal extractor's repetition limit
+// (limit_repeat = 10), 65 and 101 beyond its total / literal-length limits.
+const REPS: &[&str] = &["*", "+", "?", "{2}", "{1,2}", "{0,3}", "{2,}", "*?", "+?", "??", "{1,3}?", "{10}", "{11}", "{12}", "{9,11}", "{11,}", "{65}", "{101}"];
 const FLAG_GROUPS: &[&str] = &["i", "s", "-u", "x", "R", "U", "m", "i-u"];
 const CAP_NAMES: &[&str] = &["n", "a1", "a_b", "a.b", "a[0]", "Z"];
 
 struct Budget {
     left: usize,
+    big_rep_used: bool,
 }
 
 pub fn gen_re(t: &mut Tape, o: &ReOpts) -> Re {
-    let mut b = Budget { left: 1 + t.small(o.max_nodes.saturating_sub(1)) };
+    let mut b = Budget { left: 1 + t.small(o.max_nodes.saturating_sub(1)), big_rep_used: false };
     gen_node(t, o, &mut b, 0)
 }
 
@@ -143,8 +146,17 @@ fn gen_node(t: &mut Tape, o: &ReOpts, b: &mut Budget, depth: usize) -> Re {
             Re::Alt((0..n).map(|_| gen_node(t, o, b, depth + 1)).collect())
         }
         3 => {
-            let inner = gen_node(t, o, b, depth + 1);
-            Re::Rep(Box::new(inner), t.pick(REPS).to_string())
+            if !b.big_rep_used && t.chance(1, 6) {
+                // a large count: only around a single character and only once
+                // per pattern, otherwise compiled sizes explode
+                b.big_rep_used = true;
+                let op = REPS[11 + t.below(REPS.len() - 11)];
+                let c = LIT_CHARS[t.below(3)];
+                Re::Rep(Box::new(Re::Lit(c.to_string())), op.to_string())
+            } else {
+                let inner = gen_node(t, o, b, depth + 1);
+                Re::Rep(Box::new(inner), REPS[t.below(11)].to_string())
+            }
         }
         4 => {
             let inner = gen_node(t, o, b, depth + 1);
@@ -266,6 +278,11 @@ pub fn parse_hir(pattern: &str, case_insensitive: bool, unicode: bool, crlf: boo
 /// guaranteed one. `avoid` lists bytes not to pick from classes when the
 /// class has other members (the line terminator).
 pub fn sample_hir(t: &mut Tape, h: &Hir, avoid: &[u8], out: &mut Vec<u8>, depth: usize) {
+    // hard cap: nested counted repetitions multiply (the sample then simply
+    // is not in the language any more, which is harmless)
+    if out.len() > 4000 || depth > 40 {
+        return;
+    }
     match h.kind() {
         HirKind::Empty | HirKind::Look(_) => {}
         HirKind::Literal(hir::Literal(b)) => out.extend_from_slice(b),
@@ -313,10 +330,14 @@ pub fn sample_hir(t: &mut Tape, h: &Hir, avoid: &[u8], out: &mut Vec<u8>, depth:
             }
         }
         HirKind::Repetition(r) => {
-            let min = r.min as usize;
+            let min = (r.min as usize).min(130);
             let max = r.max.map(|m| m as usize).unwrap_or(min + 3).min(min + 3);
-            let n = if depth > 6 { min.min(1) } else { t.range(min.min(4), max.min(6).max(min.min(4))) };
+            // stay inside the language: at least `min` repetitions
+            let n = if depth > 6 { min } else { t.range(min, max.max(min)) };
             for _ in 0..n {
+                if out.len() > 4000 {
+                    break;
+                }
                 sample_hir(t, &r.sub, avoid, out, depth + 1);
             }
         }
